@@ -15,14 +15,17 @@ THEOREMS = ["C04_update_reconstructs_B", "C04_requests_exactly_the_missing_chunk
             "C04_needed_no_duplicates", "C04_header_fetch", "C04_header_fetch_before_fix",
             # machine-checked link between the byte-level component models and the chunk-level model
             "C04_link_scan", "C04_link_validate_data", "C04_link_missing_range", "C04_link_missing_range_abs",
-            "C04_link_placed_is_place", "C04_link_place_single", "C04_link_place_multipart_partial"]
+            "C04_link_placed_is_place", "C04_link_place_single", "C04_link_place_multipart_partial",
+            "C04_link_copy", "C04_link_reset_failed", "C04_link_parse_prefix", "C04_link_header_fetch"]
 ASSUMPTIONS = [
     "chunk-level model (Dl/Update.v): each library call is represented by its per-chunk effect. Proved links to the byte-level "
     "component models (Dl/UpdateLink*.v, theorems C04_link_*): validity scan and final data validation (Read/Scan.v, C09), range "
-    "computation (Dl/Range.v, C10), placement of a single-range response (Dl/DlWrite.v, C05; fread reading of extents); multipart "
-    "placement only up to the two confinement facts proved for dl_write_range alone. NOT linked by a theorem, tied by the real zckdl "
-    "runs only: the copy from the old file (C08), header fetch + parse (C13), and the composition of the linked steps into one "
-    "byte-level run",
+    "computation (Dl/Range.v, C10), placement of a single-range response (Dl/DlWrite.v, C05; fread reading of extents), copy from the "
+    "old file (Dl/Copy.v, C08; hypotheses: no source extent cut by the end of the source file, no write behind the end of the target "
+    "file), failed->missing reset, header fetch vs the header reader (Format/ParseImpl.v, C13: the reader depends on the first lead + "
+    "header bytes only, which are what the fetch requests). Multipart placement only up to the two confinement facts proved for "
+    "dl_write_range alone. NOT proved: the composition of the linked steps into one byte-level run (needs a file-length invariant "
+    "for the download model and a byte-level model of the ra_index loop); tied by the real zckdl runs",
     "the checksum functions are arbitrary functions; every conclusion that needs injectivity is stated as 'or two different "
     "byte strings with the same chunk checksum exist'",
     "B is a valid file (wf_new), the server returns the requested extents of B and answers 200 iff the request has more ranges "
